@@ -1,6 +1,6 @@
 (** Executable model of the kernel-launch path of the command processor:
     amd/timing/cp/internal/dispatching/dispatcher.go (DispatcherImpl),
-    roundrobin.go (roundRobinAlgorithm), cpMiddleware.go (processLaunchKernelReq,
+    roundrobin.go, greedy.go, partition.go (placement algorithms), cpMiddleware.go (processLaunchKernelReq,
     findAvailableDispatcher) and commandprocessor.go (Tick), over the CU
     resource model of Resource.v.  Definitions only; proofs in DispatcherProofs.v.
 
@@ -27,6 +27,11 @@ Record mapreq := mkMapReq { mr_id : N; mr_cu : nat; mr_key : wgkey; mr_locs : li
 (** ghost: a placement = one successful Next() of the algorithm *)
 Record placement := mkPl { pl_cu : nat; pl_key : wgkey; pl_dem : demand; pl_locs : list loc; pl_before : cu }.
 
+(** partition.go: one partition per CU; [pt_rest]/[pt_idx] are the cursor of the
+    partition's own grid builder (it is not bounded by the end of the
+    partition), [pt_disp] = partition.dispatchedWG *)
+Record part := mkPart { pt_rest : list demand; pt_idx : N; pt_disp : nat }.
+
 Record disp := mkDisp {
   dispatching : option launch;        (* d.dispatching *)
   cur_wg : option dloc;               (* d.currWG when valid *)
@@ -42,20 +47,27 @@ Record disp := mkDisp {
   a_numwg : N;                        (* gridBuilder.NumWG() *)
   a_rest : list demand;               (* what NextWG will still return *)
   a_lid : N; a_idx : N;               (* key of the next work-group *)
+  (* partitionAlgorithm (numDispatchedWG, numWG reuse a_ndisp, a_numwg) *)
+  p_parts : list part;                (* a.partitions *)
+  p_cur : list (option (wgkey * demand));   (* a.currWGs *)
+  p_next : nat;                       (* a.nextPartition *)
+  p_per : nat;                        (* a.numWGPerPartition *)
   (* ghost, never read by the transition function *)
   g_sent : list (mapreq * placement); (* MapWGReqs sent for the current launch *)
   g_cur : option placement            (* placement behind cur_wg *)
 }.
 #[export] Instance eta_disp : Settable _ := settable! mkDisp
   <dispatching; cur_wg; cycle_left; n_disp; n_comp; inflight; first_launched; prev_count;
-   a_cur; a_next_cu; a_ndisp; a_numwg; a_rest; a_lid; a_idx; g_sent; g_cur>.
+   a_cur; a_next_cu; a_ndisp; a_numwg; a_rest; a_lid; a_idx; p_parts; p_cur; p_next; p_per; g_sent; g_cur>.
 
 Definition init_disp : disp :=
-  mkDisp None None 0 0 0 [] false 0 None 0%nat 0 0 [] 0 0 [] None.
+  mkDisp None None 0 0 0 [] false 0 None 0%nat 0 0 [] 0 0 [] [] 0%nat 0%nat [] None.
 
-(** placement algorithm of the dispatchers: roundrobin.go or greedy.go (the
-    latter always scans the CUs from 0 and keeps no cursor) *)
-Inductive algo := RoundRobin | Greedy.
+(** placement algorithm of the dispatchers: roundrobin.go, greedy.go (always
+    scans the CUs from 0 and keeps no cursor) or partition.go (CU i serves the
+    i-th slice of the grid and, once its slice is exhausted, takes over
+    work-groups that other partitions have fetched but not placed) *)
+Inductive algo := RoundRobin | Greedy | Partition.
 
 Record cpcfg := mkCpCfg {
   c_alg : algo;
@@ -141,17 +153,81 @@ Definition rr_next (alg : algo) (p : list cu) (d : disp) : option (list cu * dis
     match a_cur d1 with
     | None => None
     | Some (k, dm) =>
-      match rr_scan (length p) 0 p (match alg with RoundRobin => a_next_cu d1 | Greedy => 0%nat end) k dm with
+      match rr_scan (length p) 0 p (match alg with RoundRobin => a_next_cu d1 | _ => 0%nat end) k dm with
       | None => None
       | Some (p', None) => Some (p', d1, None)
       | Some (p', Some pl) =>
         Some (p', d1 <| a_next_cu := match alg with
                                      | RoundRobin => ((pl_cu pl + 1) mod (length p))%nat
-                                     | Greedy => a_next_cu d1
+                                     | _ => a_next_cu d1
                                      end |>
                      <| a_cur := None |> <| a_ndisp := a_ndisp d1 + 1 |>, Some pl)
       end
     end
+  end.
+
+(** * partitionAlgorithm *)
+
+Fixpoint first_parked (l : list (option (wgkey * demand))) (i : nat) : option ((wgkey * demand) * nat) :=
+  match l with
+  | [] => None
+  | Some x :: _ => Some (x, i)
+  | None :: r => first_parked r (S i)
+  end.
+
+Definition dummy_part : part := mkPart [] 0 0%nat.
+
+(** nextWG(partitionIndex): the work-group to try and the partition it comes from *)
+Definition part_fetch (d : disp) (pi : nat) : disp * option ((wgkey * demand) * nat) :=
+  let pt := nth pi (p_parts d) dummy_part in
+  if (p_per d <=? pt_disp pt)%nat then (d, first_parked (p_cur d) 0%nat)      (* noWGInPartition: steal *)
+  else
+    match nth pi (p_cur d) None with
+    | Some x => (d, Some (x, pi))
+    | None =>
+      match pt_rest pt with
+      | [] => (d, None)                                                      (* NextWG() = nil *)
+      | dm :: r =>
+        let x := ((a_lid d, pt_idx pt), dm) in
+        (d <| p_parts := set_nth pi (mkPart r (pt_idx pt + 1) (pt_disp pt)) (p_parts d) |>
+           <| p_cur := set_nth pi (Some x) (p_cur d) |>, Some (x, pi))
+      end
+    end.
+
+(** the loop of Next() over the partitions, starting at nextPartition; CU i is
+    tried with the work-group that partition i offers.  None = panic. *)
+Fixpoint part_scan (fuel index : nat) (p : list cu) (d : disp) : option (list cu * disp * option placement) :=
+  match fuel with
+  | O => Some (p, d, None)
+  | S f =>
+    let i := ((index + p_next d) mod (length (p_parts d)))%nat in
+    let '(d1, r) := part_fetch d i in
+    match r with
+    | None => part_scan f (S index) p d1
+    | Some ((k, dm), from) =>
+      let c := nth i p dummy_cu in
+      match reserve c k dm with
+      | Crash => None
+      | Ret c' (Some locs) =>
+        let pf := nth from (p_parts d1) dummy_part in
+        Some (set_nth i c' p,
+              d1 <| p_cur := set_nth from None (p_cur d1) |>
+                 <| p_parts := set_nth from (mkPart (pt_rest pf) (pt_idx pf) (S (pt_disp pf))) (p_parts d1) |>
+                 <| a_ndisp := a_ndisp d1 + 1 |> <| p_next := S i |>,
+              Some (mkPl i k dm locs c))
+      | Ret c' None => part_scan f (S index) (set_nth i c' p) d1
+      end
+    end
+  end.
+
+Definition part_next (p : list cu) (d : disp) : option (list cu * disp * option placement) :=
+  if a_numwg d <=? a_ndisp d then Some (p, d, None)          (* allWGDispatched *)
+  else part_scan (length (p_parts d)) 0 p d.
+
+Definition alg_next (alg : algo) (p : list cu) (d : disp) : option (list cu * disp * option placement) :=
+  match alg with
+  | Partition => part_next p d
+  | _ => rr_next alg p d
   end.
 
 (** * DispatcherImpl *)
@@ -165,7 +241,7 @@ Definition dispatch_next (c : cpcfg) (s : shared) (d : disp) : shared * disp * b
     | Some _ => Some (s, d)
     | None =>
       if negb (has_next d) then None else
-      match rr_next (c_alg c) (pool s) d with
+      match alg_next (c_alg c) (pool s) d with
       | None => Some (crash s, d)
       | Some (p', d', None) => Some (s <| pool := p' |>, d')     (* invalid location: no progress *)
       | Some (p', d', Some pl) =>
@@ -303,33 +379,60 @@ Fixpoint tick_disps (c : cpcfg) (s : shared) (ds : list disp) : shared * list di
     (s2, d1 :: r2, p1 || p2)
   end.
 
+(** numWGPerPartition = (numWG-1)/numCU + 1 in Go integer arithmetic *)
+Definition per_partition (n ncu : nat) : nat :=
+  match n with
+  | O => if Nat.eqb ncu 1 then 0%nat else 1%nat
+  | S m => (m / ncu + 1)%nat
+  end.
+
+(** alg.StartNewKernel *)
+Definition alg_start (alg : algo) (ncu : nat) (d : disp) (l : launch) : disp :=
+  match alg with
+  | Partition =>
+    let per := per_partition (length (lr_wgs l)) ncu in
+    d <| a_ndisp := 0 |> <| a_numwg := N.of_nat (length (lr_wgs l)) |> <| a_lid := lr_id l |>
+      <| p_per := per |>
+      <| p_parts := map (fun i => mkPart (skipn (i * per) (lr_wgs l)) (N.of_nat (i * per)) 0%nat) (seq 0 ncu) |>
+      <| p_cur := repeat None ncu |>
+  | _ =>
+    d <| a_ndisp := 0 |> <| a_rest := lr_wgs l |> <| a_numwg := N.of_nat (length (lr_wgs l)) |>
+      <| a_lid := lr_id l |> <| a_idx := 0 |>
+  end.
+
 (** StartDispatching (the caller has checked IsDispatching() = false) *)
-Definition start_dispatching (c : cpcfg) (d : disp) (l : launch) : disp :=
-  d <| a_ndisp := 0 |> <| a_rest := lr_wgs l |> <| a_numwg := N.of_nat (length (lr_wgs l)) |>
-    <| a_lid := lr_id l |> <| a_idx := 0 |>
+Definition start_dispatching (c : cpcfg) (ncu : nat) (d : disp) (l : launch) : disp :=
+  (alg_start (c_alg c) ncu d l)
     <| dispatching := Some l |> <| n_disp := 0 |> <| n_comp := 0 |>
     <| cycle_left := if first_launched d then c_sub_ov c else c_launch_ov c |>
     <| first_launched := true |> <| g_sent := [] |>.
 
 (** findAvailableDispatcher + StartDispatching *)
-Fixpoint start_on_first_idle (c : cpcfg) (ds : list disp) (l : launch) : option (list disp) :=
+Fixpoint start_on_first_idle (c : cpcfg) (ncu : nat) (ds : list disp) (l : launch) : option (list disp) :=
   match ds with
   | [] => None
   | d :: r =>
     match dispatching d with
-    | None => Some (start_dispatching c d l :: r)
-    | Some _ => option_map (cons d) (start_on_first_idle c r l)
+    | None => Some (start_dispatching c ncu d l :: r)
+    | Some _ => option_map (cons d) (start_on_first_idle c ncu r l)
     end
   end.
 
 (** cpMiddleware.Handle for a LaunchKernelReq at the head of ToDriver *)
+Definition is_partition (a : algo) : bool := match a with Partition => true | _ => false end.
+
 Definition handle_launch (s : cp) : cp * bool :=
+  if crashed (sh s) then (s, false) else
   match drv_in s with
   | [] => (s, false)
   | l :: rest =>
-    match start_on_first_idle (cfg s) (disps s) l with
+    let ncu := length (pool (sh s)) in
+    match start_on_first_idle (cfg s) ncu (disps s) l with
     | None => (s, false)
-    | Some ds => (s <| disps := ds |> <| drv_in := rest |> <| g_started := g_started s ++ [l] |>, true)
+    | Some ds =>
+      (* partitionAlgorithm.StartNewKernel divides by the number of CUs *)
+      if is_partition (c_alg (cfg s)) && Nat.eqb ncu 0 then (s <| sh := crash (sh s) |>, false)
+      else (s <| disps := ds |> <| drv_in := rest |> <| g_started := g_started s ++ [l] |>, true)
     end
   end.
 
